@@ -23,13 +23,17 @@ EX3  std adapter calls -> helpers that take the closure plus the ghost function 
        S.iter().filter_map(CL).collect()   ->  S.ex_filter_map_collect(CL, Ghost(sel), Ghost(rel))     VERIFIED helper (loop)
        S.iter().take_while(CL).count()     ->  S.ex_take_while_count(CL, Ghost(pred))    VERIFIED helper (loop); not in the pinned code,
                                                so that counting the leading imports instead of sorting is JUDGED, not rejected
+       V.drain(..).filter_map(CL).collect() -> V.ex_drain_filter_map_collect(CL, Ghost(sel), Ghost(rel))   TRUSTED wrapper; not in the pinned
+                                               code, so that MOVING the declarations out of the importee is JUDGED, not rejected
        V.sort_by_key(CL)                   ->  V.ex_sort_by_key(CL, Ghost(key))          TRUSTED wrapper, spec = std doc (stable)
        V.partition_point(CL)               ->  V.ex_partition_point(CL, Ghost(pred))     TRUSTED wrapper, spec = std doc
        V.retain(CL)                        ->  V.ex_retain(CL, Ghost(pred))              TRUSTED wrapper (Vec and HashSet model)
        V.splice(R, E);                     ->  V.ex_splice(R, E);                        TRUSTED wrapper (the Splice is dropped at once)
 EX4  HashSet: `for PAT in H {` where H is a local bound by `let [mut] H = HashSet::new()`  ->
      `let ex_order = H.ex_into_vec(); for PAT in ex_order {`   (ex_into_vec = `self.into_iter().collect()`, trusted: the
-     elements in SOME order, each once - nothing else is assumed about the order; the name lets the invariants speak of it).  `HashSet` itself names the
+     elements in SOME order, each once - nothing else is assumed about the order; the name lets the invariants speak of it).
+     A local bound by `Vec::new()` and consumed by a `for` is named the same way (`let ex_order = H;`, a move), so that a change
+     from the set to a vector is JUDGED by the same invariants instead of losing them.  `HashSet` itself names the
      trusted set model of prelude/expand_std.rs.
 EX5  `X.to_string()` -> `X.ex_to_string()` (trusted wrapper around the same call for String and str: a copy of the text;
      String reaches `to_string` through the blanket `impl<T: Display> ToString for T`, which cannot be given a spec per type)
@@ -179,6 +183,25 @@ def r_adapters(closures):
             new = '%s.ex_%s(%s%s)' % (recv, adapter, cl, ghost)
             text = text[:toks[rs].start] + new + text[toks[mclose + 4].end:]
             u.rules['EX3-' + adapter] += 1
+        # (a') V.drain(..).filter_map(CL).collect()  (not in the pinned code: moving the declarations out instead of exporting copies)
+        while True:
+            toks = tokenize(text)
+            match = match_brackets(toks)
+            site = None
+            for i, t in enumerate(toks):
+                if t.text == '.' and _seq(toks, i, ['.', 'drain', '(', '.', '.', ')', '.', 'filter_map', '(']) and toks[i + 9].text == '|':
+                    mclose = match[i + 8]
+                    if _seq(toks, mclose + 1, ['.', 'collect', '(', ')']):
+                        site = (i, i + 8, mclose)
+                        break
+            if site is None:
+                break
+            i, mopen, mclose = site
+            param, body = _closure_arg(text, toks, match, mopen)
+            cl, cfg = _typed_closure(u, key, 'drain_filter_map_collect', param, body, closures)
+            ghost = ''.join(', Ghost(%s)' % g for g in cfg.get('ghost', []))
+            text = text[:toks[i].start] + '.ex_drain_filter_map_collect(%s%s)' % (cl, ghost) + text[toks[mclose + 4].end:]
+            u.rules['EX3-drain_filter_map_collect'] += 1
         # (b) method calls with one closure argument
         for name in ('sort_by_key', 'partition_point', 'retain'):
             while True:
@@ -214,16 +237,17 @@ def r_adapters(closures):
 def r_hashset_iteration(u, key, text):
     """EX4"""
     n = 0
-    for m in re.finditer(r'let\s+(?:mut\s+)?(\w+)(?:\s*:\s*[^=;]+)?\s*=\s*HashSet\s*::\s*new\s*\(\s*\)\s*;', text):
-        name = m.group(1)
+    for m in re.finditer(r'let\s+(?:mut\s+)?(\w+)(?:\s*:\s*[^=;]+)?\s*=\s*(HashSet|Vec)\s*::\s*new\s*\(\s*\)\s*;', text):
+        name, kind = m.group(1), m.group(2)
         pat = re.compile(r'([ \t]*)(\bfor\s+[^{};]*?\bin\s+)%s(\s*\{)' % re.escape(name))
         while True:
             mm = pat.search(text)
             if not mm:
                 break
             var = 'ex_order%s' % (n or '')
-            text = text[:mm.start()] + '%slet %s = %s.ex_into_vec();\n%s%s%s%s' % (mm.group(1), var, name, mm.group(1), mm.group(2), var, mm.group(3)) + text[mm.end():]
-            u.rules['EX4-hashset-into-iter'] += 1
+            init = '%s.ex_into_vec()' % name if kind == 'HashSet' else name
+            text = text[:mm.start()] + '%slet %s = %s;\n%s%s%s%s' % (mm.group(1), var, init, mm.group(1), mm.group(2), var, mm.group(3)) + text[mm.end():]
+            u.rules['EX4-hashset-into-iter' if kind == 'HashSet' else 'EX4-vec-named'] += 1
             n += 1
     return text
 
